@@ -180,7 +180,32 @@ def c05(run):
     run.rc = run.finish(assumptions=CRYPTO_ASSUME + ["behaviours replayed are a seeded sample of the model's maximal behaviours (all of them are checked on the model)"])
 
 
-PROPS = {"C01": c01, "C05": c05, "C02": c02, "C03": c03, "C04": c04, "C06": c06, "C07": c07, "C08": c08}
+BAND_ASSUME = ["Regional Parameters tables in spec/lorawan/RegionalParameters.tla are transcribed offline; cells that cannot be vouched for are Unknown and constrain nothing (LR-FHSS data-rates, per-revision payload sizes, TX-power step counts of US915/AU915)",
+               "read-only snapshot hook band/verif_snapshot.go (build tag verif)"]
+
+
+def band_tables(run):
+    run.design_check("BandRulesModel", workers=4)
+    t = run.record("band", "tables")
+    run.validate("band", t, "Trace_band", label="(V) all 24 names x repeater x dwell-time, full argument ranges", chunk=7)
+    run.exhaustive.append("every band configuration x every accessor argument in range (DR -2..16 x offset -2..9, all channels, 8 versions x 9 revisions x DR -1..15)")
+
+
+def c12(run):
+    band_tables(run)
+    t = run.record("band", "pingslot", n=T(run, 300, 6000))
+    run.validate("band", t, "Trace_band", label="(V) ping-slot frequency for seeded DevAddr / beacon times", chunk=20000)
+    run.require_kinds("band/bandcfg", "band/pingslot")
+    run.rc = run.finish(assumptions=BAND_ASSUME, exhaustive=False)
+
+
+def c13(run):
+    band_tables(run)
+    run.require_kinds("band/bandcfg")
+    run.rc = run.finish(assumptions=BAND_ASSUME, exhaustive=True)
+
+
+PROPS = {"C01": c01, "C12": c12, "C13": c13, "C05": c05, "C02": c02, "C03": c03, "C04": c04, "C06": c06, "C07": c07, "C08": c08}
 
 
 def replay(run, path):
